@@ -59,7 +59,7 @@ impl Cell {
     }
     /// policy model: what the statement requires for this cell
     pub fn expectation(&self) -> &'static str {
-        let chains = self.leaf == "valid" && (self.root == "issuing-ca-pem" || self.root == "issuing-ca-der");
+        let chains = (self.leaf == "valid" && (self.root == "issuing-ca-pem" || self.root == "issuing-ca-der")) || (self.leaf == "validtiny" && (self.root == "tiny-ca-pem" || self.root == "tiny-ca-der"));
         let host_ok = self.host == "localhost"; // the fixtures' SAN is DNS:localhost only
         let good = chains && host_ok; // "valid" = right host name, not expired, signed by the issuing CA
         if good {
@@ -96,6 +96,8 @@ fn root_bytes(root: &str) -> Option<Vec<u8>> {
         "issuing-ca-pem" => std::fs::read(d.join("ca1.pem")).ok(),
         "issuing-ca-der" => std::fs::read(d.join("ca1.der")).ok(),
         "unrelated-ca" => std::fs::read(d.join("ca3.pem")).ok(),
+        "tiny-ca-pem" => std::fs::read(d.join("catiny.pem")).ok(),
+        "tiny-ca-der" => std::fs::read(d.join("catiny.der")).ok(),
         _ => None,
     }
 }
@@ -152,10 +154,16 @@ pub fn run_leaf(backend: &str, leaf: &'static str, hosts: &[&'static str], rt: &
     let mut out = Vec::new();
     for &host in hosts {
         for client in ["blocking", "async"] {
-            for (flag, root) in cell_order(order) {
+            let cells: Vec<(&'static str, &'static str)> = if leaf == "validtiny" {
+                // the extra block for the tiny CA (DER shorter than 256 octets): accepted as PEM and as DER
+                FLAGS.iter().flat_map(|f| ["tiny-ca-der", "tiny-ca-pem", "none", "issuing-ca-der"].into_iter().map(move |r| (*f, r))).collect()
+            } else {
+                cell_order(order)
+            };
+            for (flag, root) in cells {
                 // IP-literal targets: the fixtures' SAN is DNS:localhost only, so every certificate
                 // mismatches the host; only the cells that would otherwise be accepted are interesting
-                if host != "localhost" && !(root == "issuing-ca-pem" && flag != "true") {
+                if host != "localhost" && !(root == "issuing-ca-pem" && flag != "true" && leaf != "validtiny") {
                     continue;
                 }
                 let server = if host == "[::1]" {
@@ -244,6 +252,7 @@ pub fn run_matrix(backend: &str, with_ip_target: bool, order: u64) -> Result<Vec
     let results: Vec<Result<Vec<CellResult>, String>> = std::thread::scope(|sc| {
         let hs: Vec<_> = LEAVES
             .iter()
+            .chain(["validtiny"].iter())
             .map(|leaf| {
                 let (rt, hosts) = (&rt, &hosts);
                 sc.spawn(move || run_leaf(backend, leaf, hosts, rt, order))
@@ -265,7 +274,7 @@ pub fn result_json(r: &CellResult) -> Value {
 /// Replay of one cell (by its JSON).
 pub fn replay_cell(backend: &str, v: &Value) -> Result<CellResult, String> {
     let find = |list: &[&'static str], key: &str| -> Option<&'static str> { list.iter().copied().find(|x| Some(*x) == v.get(key).and_then(|s| s.as_str())) };
-    let leaf = find(&LEAVES, "leaf").ok_or("leaf")?;
+    let leaf = find(&["valid", "wronghost", "expired", "selfsigned", "unknownca", "validtiny"], "leaf").ok_or("leaf")?;
     let want = (v.get("client").and_then(|s| s.as_str()).unwrap_or("").to_string(), v.get("flag").and_then(|s| s.as_str()).unwrap_or("").to_string(), v.get("root").and_then(|s| s.as_str()).unwrap_or("").to_string(), v.get("host").and_then(|s| s.as_str()).unwrap_or("localhost").to_string());
     let rt = tokio::runtime::Builder::new_multi_thread().worker_threads(2).enable_all().build().map_err(|e| format!("{e}"))?;
     let hosts: Vec<&'static str> = if want.3 == "127.0.0.1" { vec!["127.0.0.1"] } else if want.3 == "[::1]" { vec!["[::1]"] } else { vec!["localhost"] };
